@@ -53,6 +53,44 @@ enum UmadGenome {
     Plushy,
     /// `Vector<()>`: zero-sized genes (a unit-like marker gene); only lengths and counts can be observed
     VectorUnit,
+    /// a user-defined linear genome kept in segments, whose iterator does not know its length in advance
+    Segmented,
+}
+
+/// A lawful linear genome of the user's own: genes kept in segments of three, iterated by flattening (the iterator's
+/// `size_hint` is `(0, None)` at the start), rebuilt from any iterator of genes.
+struct Segmented {
+    parts: Vec<Vec<u32>>,
+}
+
+impl ec_core::genome::Genome for Segmented {
+    type Gene = u32;
+}
+
+impl ec_linear::genome::Linear for Segmented {
+    fn size(&self) -> usize {
+        self.parts.iter().map(Vec::len).sum()
+    }
+
+    fn gene_mut(&mut self, index: usize) -> Option<&mut u32> {
+        self.parts.iter_mut().flatten().nth(index)
+    }
+}
+
+impl IntoIterator for Segmented {
+    type Item = u32;
+    type IntoIter = std::iter::Flatten<std::vec::IntoIter<Vec<u32>>>;
+
+    fn into_iter(self) -> Self::IntoIter {
+        self.parts.into_iter().flatten()
+    }
+}
+
+impl FromIterator<u32> for Segmented {
+    fn from_iter<T: IntoIterator<Item = u32>>(iter: T) -> Self {
+        let all: Vec<u32> = iter.into_iter().collect();
+        Self { parts: all.chunks(3).map(<[u32]>::to_vec).collect() }
+    }
 }
 
 #[derive(Serialize, Deserialize, Clone, Debug)]
@@ -357,6 +395,13 @@ fn check_umad(
                 let parent: Vector<u32> = (0..len as u32).collect();
                 match umad.mutate(parent, &mut rng) {
                     Ok(c) => c.genes.into_iter().map(Some).collect(),
+                    Err(e) => match e {},
+                }
+            }
+            UmadGenome::Segmented => {
+                let parent: Segmented = (0..len as u32).collect();
+                match umad.mutate(parent, &mut rng) {
+                    Ok(c) => c.into_iter().map(Some).collect(),
                     Err(e) => match e {},
                 }
             }
@@ -739,7 +784,7 @@ impl Check for C11 {
                 add: *g.pick(&RATES64),
                 empty: *g.pick(&RATES64),
                 del: *g.pick(&RATES64),
-                genome: if g.chance(1, 12) { UmadGenome::VectorUnit } else { *g.pick(&[UmadGenome::VectorU32, UmadGenome::Plushy]) },
+                genome: if g.chance(1, 12) { UmadGenome::VectorUnit } else { *g.pick(&[UmadGenome::VectorU32, UmadGenome::Plushy, UmadGenome::Segmented]) },
                 len,
                 close_mask: match g.below(4) {
                     0 | 1 => 0,
